@@ -2,21 +2,24 @@
    Property theorems only; proofs live in Proofs/VerifierProofs.v and Proofs/FootprintProofs.v.
 
    What the theorems carry: index bounds of every raw-pointer access of the dispatch loop, over the
-   verifier model (Model/Verifier.v) and the footprint model (Model/Footprint.v), both driven by tables
-   regenerated from the Rust source.  What only the tie explores: that the models are the code, value
-   semantics, natives, GC/lifetime of cached code pointers, and undefined behaviour other than
+   verifier model (Model/Verifier.v), the footprint model and the frame machine (Model/Footprint.v), all
+   driven by tables regenerated from the Rust source.  What only the tie explores: that the models are the
+   code, value semantics, natives, GC/lifetime of cached code pointers, and undefined behaviour other than
    out-of-range indices and the from_u8 transmute.
 
-   The full statement (every reachable instruction of every accepted function stays in bounds) is FALSE
-   of the faithful model, twice over: C04_jump_into_cache_word_refuted and C04_stale_constants_len_refuted.
-   The strongest true statement is C04_verified_exec_in_bounds_on_grid under the explicit guards
-   `on the verifier's grid` and `frame_inv` (loop-local constants_len <= true length). *)
+   History: on the tree before the repairs (fix commits for KF-C04-1/2/3) the full statement was false
+   (C04_jump_into_cache_word_refuted, C04_stale_constants_len_refuted, C04_from_u8_gap).  The code now
+   (a) rejects jumps that do not land on an instruction start and bounds-checks the inline cache words,
+   (b) refreshes constants_len on every frame switch and indexes GetGlobal/SetGlobal with byte b,
+   (c) returns None from from_u8 for non-discriminants; the full statement is the theorem
+   C04_verified_exec_in_bounds, without side conditions.  The former witnesses are kept as regression
+   examples (C04_former_witnesses_now_safe). *)
 From Aelys Require Import Base.Tactics Extracted.OpcodeNumbering Extracted.VerifierTable Extracted.DispatchSites
   Model.Verifier Model.Footprint Proofs.VerifierProofs Proofs.FootprintProofs.
 Local Open Scope N_scope.
 
 (* the scan checks every word on its linear grid: the opcode has a table entry and all its operand
-   checks (registers, constant / upvalue index, jump range, call argument window, cache words) hold *)
+   checks (registers, constant / upvalue index, jump range and landing, call argument window, cache words) hold *)
 Theorem C04_verifier_linear_sound : forall f : func, verify f = VOk ->
   forall ip w, on_grid (f_code f) ip = true -> nthN (f_code f) ip = Some w ->
   exists cs adv, decode (w_op w) = DEntry cs adv /\ forallb (check_ok (env_of f) ip w) cs = true.
@@ -27,80 +30,81 @@ Theorem C04_verifier_nested : forall (d : N) (f g : func),
   verify_at d f = VOk -> In g (f_nested f) -> verify_at (d + 1) g = VOk.
 Proof. exact verify_at_nested. Qed.
 
+(* control flow of an accepted function stays on the grid: every word reachable from word 0 through
+   fall-through, the cache-word skip and jumps is an instruction start *)
+Theorem C04_reachable_words_on_grid : forall (f : func) (ip : N),
+  verify f = VOk -> reach (f_code f) ip -> ip < len (f_code f) -> grid (f_code f) ip.
+Proof. intros f ip V. exact (reach_grid f ip (verify_body_of_verify f V)). Qed.
+
 (* the instruction fetch is inside the bytecode buffer: all states, all words, no verifier needed *)
 Theorem C04_fetch_in_bounds : forall (s : st) (w : N) (a : acc),
   In a (must s w) -> a_site a = S_FETCH -> in_bounds a = true.
 Proof. exact fetch_in_bounds_lemma. Qed.
 
-(* every access of a runtime-guarded site (fetch, constants, upvalues, registers, call-site cache) is
-   inside its buffer for ALL states with a sound constants_len and ALL instruction words *)
+(* every access of a runtime-guarded site (fetch, inline cache words, constants, upvalues, registers,
+   call-site cache) is inside its buffer for ALL states with a sound constants_len and ALL instruction words *)
 Theorem C04_guarded_sites_in_bounds : forall (s : st) (w : N) (a : acc),
   frame_inv s -> footprint s w a -> guarded_site w a = true -> in_bounds a = true.
 Proof. exact guarded_sites_in_bounds_lemma. Qed.
 
-(* the unguarded inline cache-word reads of 77/78/104 are in bounds when the word is on the grid *)
+(* the inline cache-word reads of 77/78/104 are in bounds when the word is on the grid (verifier side) *)
 Theorem C04_cache_words_in_bounds : forall (f : func) (s : st) (w : N) (a : acc),
   verify f = VOk -> on_grid (f_code f) (s_ip s) = true -> nthN (f_code f) (s_ip s) = Some w ->
   s_bclen s = len (f_code f) -> In a (cache_accs s w) -> in_bounds a = true.
 Proof. intros f s w a V. exact (cache_words_in_bounds_lemma f s w a (verify_body_of_verify f V)). Qed.
 
-(* strongest true statement: on the grid, with a sound constants_len, every raw access of the word
-   (fetch, cache words read and patched in place, constants, upvalues, registers, call-site cache) is in bounds *)
-Theorem C04_verified_exec_in_bounds_on_grid : forall (f : func) (s : st) (w : N) (a : acc),
-  verify f = VOk -> on_grid (f_code f) (s_ip s) = true -> nthN (f_code f) (s_ip s) = Some w ->
-  s_bclen s = len (f_code f) -> frame_inv s ->
-  footprint s w a -> in_bounds a = true.
-Proof. intros f s w a V. exact (on_grid_in_bounds_lemma f s w a (verify_body_of_verify f V)). Qed.
+(* every frame switch (Call, CallGlobal, CallGlobalMono, CallCached, CallUpval, TailCallUpval; function or
+   closure) leaves the loop with constants_len = length of the callee's constant table *)
+Theorem C04_calls_keep_frame_inv : forall (op kind : N) (caller : st) (callee : func) (b : N),
+  frame_inv (enter op kind caller callee b).
+Proof. exact enter_frame_inv. Qed.
 
-(* call paths that refresh the loop-local constants_len re-establish frame_inv ... *)
-Theorem C04_refreshing_call_keeps_frame_inv : forall (op kind : N) (caller : st) (callee : func) (b : N),
-  refreshes_clen op kind = true -> frame_inv (enter op kind caller callee b).
-Proof. exact refreshing_call_keeps_inv. Qed.
+(* one function, its own control flow: every reachable word has all raw accesses in bounds *)
+Theorem C04_reachable_words_in_bounds : forall (f : func) (s : st) (w : N) (a : acc),
+  verify f = VOk -> reach (f_code f) (s_ip s) -> nthN (f_code f) (s_ip s) = Some w ->
+  s_bclen s = len (f_code f) -> frame_inv s -> footprint s w a -> in_bounds a = true.
+Proof. intros f s w a V. exact (reach_in_bounds_lemma f s w a (verify_body_of_verify f V)). Qed.
 
-(* FULL STATEMENT, refuted.  `verified_exec_in_bounds` would say: for every accepted f, every word
-   reachable by f's own control flow, every state running it: all `must` accesses in bounds.
-   Witness: [Jump +2][CallGlobal][w1][w2 = 0x4D......]: accepted; word 3 is reachable and off the grid;
-   executing it reads word 5 of the 4-word buffer and (when the global resolves) writes words 4 and 5. *)
-Theorem C04_jump_into_cache_word_refuted :
-  exists (f : func) (s : st) (w : N) (a : acc),
-    verify f = VOk /\ reach (f_code f) (s_ip s) /\ nthN (f_code f) (s_ip s) = Some w /\
-    s_bclen s = len (f_code f) /\ frame_inv s /\
-    In a (must s w) /\ in_bounds a = false /\
-    may s w (S_PATCH_WR, 4, s_bclen s) = true /\ may s w (S_PATCH_WR, 5, s_bclen s) = true.
-Proof.
-  exists kf1_fn, kf1_st, 0x4d000000, (S_CACHE_RD, 5, 4).
-  destruct kf1_facts as (V & _ & Hw & HI & HB & P4 & P5).
-  repeat split; try assumption; try reflexivity. exact kf1_reach. unfold frame_inv. cbn. lia.
-Qed.
+(* FULL STATEMENT.  Start the loop on any accepted function (VM::execute); let it step, jump, call any
+   accepted callee through any call path, tail-call, return, with registers.len() and the call-site cache
+   changing arbitrarily: whatever word it fetches next, every raw access that word performs -- fetch, inline
+   cache words read and patched in place, constants, upvalues, registers, call-site cache -- is inside its buffer. *)
+Theorem C04_verified_exec_in_bounds : forall (f : func) (fr : frame) (rest : list frame) (w : N) (a : acc),
+  verify f = VOk -> mreach f (fr :: rest) ->
+  nthN (f_code (fr_fn fr)) (s_ip (fr_st fr)) = Some w ->
+  footprint (fr_st fr) w a -> in_bounds a = true.
+Proof. exact verified_exec_in_bounds_lemma. Qed.
 
-(* Second refutation, ON the grid: Call(21) on a closure (likewise CallCached, CallUpval, TailCallUpval)
-   switches constants_ptr but keeps the caller's constants_len; GetGlobal/SetGlobal index constants with
-   imm16 while the verifier checks byte b only; the guard compares against the stale length. *)
-Theorem C04_stale_constants_len_refuted :
-  exists (f callee : func) (caller : st) (wcall w : N) (a : acc),
-    verify f = VOk /\ In callee (f_nested f) /\ frame_inv caller /\
-    nthN (f_code f) (s_ip caller) = Some wcall /\ In (w_op wcall, 1, false) call_paths /\
-    let s := enter (w_op wcall) 1 caller callee 1 in
-    on_grid (f_code callee) (s_ip s) = true /\ nthN (f_code callee) (s_ip s) = Some w /\
-    In a (must s w) /\ in_bounds a = false /\ ~ frame_inv s.
-Proof.
-  exists kf2_fn, kf2_callee, kf2_caller_st, 0x15010000, 0x18000005, (S_CONST, 5, 1).
-  destruct kf2_facts as (V & HN & FI & Hc & Hop & HP & G & Hw & HI & HB).
-  rewrite Hop. repeat split; try assumption.
-  unfold frame_inv. vm_compute. intros H. apply H. reflexivity.
-Qed.
+(* OpCode::from_u8 returns Some only for declared discriminants; the verifier never meets an undefined opcode *)
+Theorem C04_from_u8_total : forall b : N, from_u8_accepts b = true -> is_discriminant b = true.
+Proof. exact from_u8_total_lemma. Qed.
 
-(* OpCode::from_u8 accepts (transmutes) bytes that are not discriminants; the verifier reaches it *)
-Theorem C04_from_u8_gap :
-  exists b : N, b <= from_u8_bound /\ is_discriminant b = false /\ In b gap_bytes /\
-                verify (Func 1 [] 0 [b * 16777216] []) = VUndefined.
-Proof. exists 122. exact gap_facts. Qed.
+Theorem C04_verifier_never_undefined : forall (e : venv) (code : list N) (fuel : nat) (i : N),
+  scan fuel e code i <> VUndefined.
+Proof. intros e code. exact (scan_never_undefined e code). Qed.
 
-(* non-vacuity: compiler output is accepted, its grid skips cache words, guards are all present *)
+(* the witnesses that refuted the full statement before the repairs, on the code as it is now:
+   the jump into a cache word is rejected (and off the grid the cache words are no longer touched);
+   the closure call refreshes constants_len and GetGlobal reads constant b = 0; byte 0x7A is an invalid opcode *)
+Example C04_former_witnesses_now_safe :
+  (verify kf1_fn = VReject /\ on_grid (f_code kf1_fn) 3 = false /\ must kf1_st 0x4d000000 = [(S_FETCH, 3, 4)]) /\
+  (verify kf2_fn = VOk /\
+   must (enter OP_Call 1 kf2_caller_st kf2_callee 1) 0x18000005 = [(S_FETCH, 0, 2); (S_CONST, 0, 1)] /\
+   s_clen (enter OP_Call 1 kf2_caller_st kf2_callee 1) = 1) /\
+  (gap_bytes = [] /\ verify (Func 1 [] 0 [0x7a000000] []) = VReject).
+Proof. exact (conj kf1_now (conj kf2_now gap_now)). Qed.
+
+(* non-vacuity: compiler output is accepted, its grid skips cache words, the machine runs it *)
 Example C04_nonvacuous :
   verify sample_fn = VOk /\ on_grid (f_code sample_fn) 12 = true /\ on_grid (f_code sample_fn) 13 = false /\
   on_grid (f_code sample_fn) 15 = true /\ w_op 0x68000101 = OP_CallGlobalNative.
 Proof. exact sample_facts. Qed.
 
-Example C04_guards_present : guards_present = true.
-Proof. exact guards_present_true. Qed.
+Example C04_machine_nonvacuous :
+  exists cfg, mreach sample_fn cfg /\
+    match cfg with fr :: _ => s_ip (fr_st fr) = 1 /\ fr_fn fr = sample_fn | [] => False end.
+Proof. exact sample_machine. Qed.
+
+(* every runtime guard and verifier check the proofs rely on is present in the source *)
+Example C04_guards_present : guards_present = true /\ all_calls_refresh = true /\ jump_grid_checked = true.
+Proof. exact (conj guards_present_true (conj all_calls_refresh_true jump_grid_present)). Qed.
